@@ -590,6 +590,43 @@ func c15Main(args []string) int {
 			all = append(all, r)
 		}
 	}
+	// ---- one REUSED compiler per mode compiling every class in sequence must produce the same
+	// automata as a fresh compiler per class (nfa.Compiler is a reusable public object)
+	byKey := map[string]*c15Result{}
+	for _, r := range all {
+		byKey[r.Mode+"\x00"+r.Class] = r
+	}
+	for _, m := range modes {
+		shared := nfa.NewCompiler(m.cfg)
+		for round := 0; round < 2; round++ {
+			for _, c := range classes {
+				if *only != "" && !strings.Contains(c.text, *only) {
+					continue
+				}
+				re2, err := syntax.Parse(c.text, syntax.Perl)
+				if err != nil {
+					continue
+				}
+				ref := byKey[m.name+"\x00"+c.text]
+				if ref == nil || ref.Note != "" {
+					continue
+				}
+				st.Evaluations++
+				n, err := shared.CompileRegexp(re2)
+				got := "compile error"
+				if err == nil {
+					got = dumpNFA(n).coq
+				} else {
+					got += ": " + err.Error()
+				}
+				if got != ref.dump.coq {
+					st.violate(violation{Kind: "reused-compiler-differs", Case: ref.Index,
+						Detail: map[string]any{"mode": m.name, "pattern": c.text, "round": round, "fresh_states": ref.States, "reused": short(got, 300)},
+						Sig:    "reused-compiler|" + m.name + "|" + c.text, RC: "reused-compiler-differs"})
+				}
+			}
+		}
+	}
 	distinct := distinctSet{}
 	for _, r := range all {
 		st.Evaluations += len(in.all)
